@@ -10,7 +10,7 @@
    every prefix of every history. Maximal histories are emitted with the projection the reference model
    spec/utils/IdSet.tla demands after each step; expected status is always "done" (no undefined behaviour).
 
-   Each step also carries `risk`: what the pointer-level model of the code as written
+   Each step also carries `risk` / `key`: what the pointer-level model of the code as written
    (spec/utils/IdSetImpl.tla, DeepClone = FALSE) says about the raw pointers that step's projection
    dereferences ("" = all inside the instance's own live buffers). It never changes the expectation; it
    only names the defect family (finding key) when the implementation deviates at that step. *)
@@ -32,6 +32,9 @@ Ops ==    {[op |-> "insert", s |-> s, v |-> Vals[i]] : s \in SlotIds, i \in 1..L
      \cup {x \in {[op |-> o, s |-> s, d |-> d] : o \in (IF WithMove THEN {"clone", "move"} ELSE {"clone"}),
                                                  s \in SlotIds, d \in SlotIds} : x.s # x.d}
 
+\* finding-key prefix of a step: the defect family the pointer-level model of the code as written predicts there
+KeyOf(risk) == IF risk = "" THEN "C37|no-pointer-risk" ELSE "C37|derive-clone-shares-buffers|" \o risk
+
 Init == /\ hist = <<>>
         /\ slots = InitSlots(NSlots)
         /\ impl = Impl!InitImpl(NSlots)
@@ -45,7 +48,8 @@ Next == /\ Len(hist) < MaxLen
              /\ impl' = Impl!ImplApply(impl, op)
              /\ exp' = Append(exp, [ret |-> Ret(slots, op),
                                     slots |-> ProjectAll(slots', Probe),
-                                    risk |-> Impl!RiskName(Impl!RiskLevel(impl'))])
+                                    risk |-> Impl!RiskName(Impl!RiskLevel(impl')),
+                                    key |-> KeyOf(Impl!RiskName(Impl!RiskLevel(impl')))])
 
 \* ------------------------------------------------------------------ case emission
 OpName(op) == CASE op.op = "insert"  -> "i" \o ToString(op.s) \o op.v
